@@ -274,7 +274,12 @@ def world_plans(draw, tier):
                     or draw(st.sampled_from(mine))
             else:
                 mk = draw(st.sampled_from(mine))
-            if mk['kind'] == 'load':
+            again = [o for o in oplist if o.get('slot') == mk['slot'] and o['op'] == mk['kind']]
+            if again and draw(st.integers(0, 4)) == 0:
+                # the very same call once more (a configuration that is re-read, an object
+                # that is saved again)
+                op = {k: v for k, v in again[-1].items() if k not in ('cancel', 'cbf', 'iof', 'nest')}
+            elif mk['kind'] == 'load':
                 op = draw(load_ops(specs, mk))
             else:
                 op = draw(dump_ops(specs, mk, shared))
@@ -311,6 +316,8 @@ def world_plans(draw, tier):
     tape = draw(tapes(tier)) if K > 1 else {'entries': [], 'tail': None}
     # the caller keeps the exceptions of failed calls alive until the end of the run
     knobs['retain_exc'] = draw(st.booleans())
+    # ... and (up to 64 of) the values it loaded, having changed them in place
+    knobs['keep_results'] = draw(st.booleans())
     if K == 1 and draw(st.integers(0, 3)) == 0:
         # a long sequential history: the operation list is executed many times
         knobs['repeat'] = draw(st.sampled_from(
